@@ -85,6 +85,23 @@ pub fn check(ctx: &mut Ctx, b: &[u8], what: &str) {
         }
     }
 }
+/// decision and fields against the reference only (for the very large enumerations)
+fn check_light(ctx: &mut Ctx, b: &[u8], what: &str) {
+    ctx.eval();
+    let r = adc_ref(b);
+    match guard(|| adc_lib(b)) {
+        Err(p) => ctx.panic_violation("AdcV3Packet::try_from", &p, json!({"bytes": hex_short(b), "what": what})),
+        Ok(Some(_)) if r.is_none() => ctx.violation("malformed packet accepted", format!("library accepts, reference rejects ({}) len={} rs={}", what, b.len(), if b.len() >= 8 { u16::from_be_bytes([b[6], b[7]]) } else { 0 }), json!({"bytes": hex_short(b)})),
+        Ok(None) if r.is_some() => ctx.violation("well-formed packet rejected", format!("library rejects, reference accepts ({}) len={}", what, b.len()), json!({"bytes": hex_short(b)})),
+        Ok(Some(l)) => {
+            if Some(&l) != r.as_ref() {
+                ctx.violation("accessor differs from stored field", format!("lib {:?}\nref {:?}", short(&l), short(r.as_ref().unwrap())), json!({"bytes": hex_short(b)}));
+            }
+            ctx.count("accepted by both (sweeps)");
+        }
+        Ok(None) => {}
+    }
+}
 fn short(f: &AdcF) -> String {
     format!("at={} mod={} ch={} rs={} ts={:#x} mac={:?} toff={:?} build={:?} n={} base={} kl={} kb={} sup={}", f.at, f.module, f.chan, f.rs, f.ts, f.mac, f.toff, f.build, f.wf.len(), f.base, f.kl, f.kb, f.sup)
 }
@@ -143,6 +160,44 @@ fn run(ctx: &mut Ctx) {
             }
         }
     }
+    // ---- every requested_samples value 0..=65535 against waveforms of several lengths (also > 256 and > 4096 samples:
+    // a count held in a narrower type aliases there), suppression off / on
+    ctx.cases("requested-samples-sweep", 16 * 10, |ctx, i, rng| {
+        let n = [64usize, 70, 300, 697, 5000][(i / 32) as usize];
+        let sup = (i / 16) % 2 == 1;
+        let part = i % 16;
+        let mut a = Adc::simple(rng.pick(&A16_MACS).1, rng.below(32) as u8, content(rng, 3, n));
+        if sup {
+            a.suppression = true;
+            a.keep_bit = true;
+            a.keep_last = 34 + rng.below(((n + 4) / 2 - 33).max(1) as u64) as u16;
+        }
+        let mut b = a.encode();
+        for rs in part * 4096..(part + 1) * 4096 {
+            b[6..8].copy_from_slice(&(rs as u16).to_be_bytes());
+            check_light(ctx, &b, "requested_samples sweep");
+        }
+        ctx.count_n("requested_samples values swept", 4096);
+    });
+    // ---- one header / footer field at a constant from the library's sources, jointly with one more bit / byte changed
+    let dict = super::source_dictionary("detector/src");
+    ctx.cases("dictionary-pairs", 40 * 2, |ctx, k, rng| {
+        let sup = k >= 40;
+        let off = (k % 40) as usize;
+        let mut a = Adc::simple(rng.pick(&A16_MACS).1, rng.below(32) as u8, content(rng, 3, 70));
+        if sup {
+            a.suppression = true;
+            a.keep_bit = true;
+            a.keep_last = 35;
+            a.requested_samples = 74;
+        }
+        let seed = a.encode();
+        let l = seed.len();
+        let off = if off < 36 { off } else { l - 40 + off };
+        let mut n = super::dict_pairs(&seed, off, 0..36, &dict, |_| {}, |b| check_light(ctx, b, "field at a source constant + one more header change"));
+        n += super::dict_pairs(&seed, off, l - 4..l, &dict, |_| {}, |b| check_light(ctx, b, "field at a source constant + one footer change"));
+        ctx.count_n("inputs with a field at a source constant", n);
+    });
     let ncont = ctx.tier.pick(6, 12);
     ctx.cases("table", cells.len() as u64, |ctx, i, rng| {
         let (sup, kb, n, kl) = cells[i as usize];
